@@ -12,6 +12,9 @@ from worlds.gmodel import IxM, DATE_UNITS, GO_OF, STATIC_OF, is_go, unhashable, 
 
 STRS = list('abcdefgh')
 INTS = list(range(10)) + [-1, -3]  # negative integers are labels too (and look like positions)
+# integers that float64 cannot hold, of both signs, next to floats and small ints: the array must stay exact (object), the
+# i-th value must still be the i-th label. Construction only: growth re-casting is a recorded behaviour (KNOWN_FINDINGS, reported)
+NUMS = [2 ** 53 + 1, -(2 ** 53 + 1), 2 ** 53 + 3, -(2 ** 53 + 3), 0.5, 2.5, -1.5, 3, -1, 7]
 DATES = {
     'D': ['2020-01-%02d' % i for i in range(1, 11)],
     'M': ['2020-%02d' % i for i in range(1, 11)],
@@ -115,15 +118,18 @@ class IndexOps:
             if u in ('Y', 'D', 's') and ch.chance(0.1):
                 op['auto_src'] = True
         else:
-            fam = ch.choice(['str', 'int', 'mix', 'int0'])
+            fam = ch.choice(['str', 'int', 'mix', 'int0', 'str', 'int', 'mix', 'int0', 'num'])
             if fam == 'int0':
                 labels = list(range(n))
+            elif fam == 'num':
+                labels = ch.sample(NUMS, min(n, len(NUMS)))
+                op['num'] = True
             else:
                 pool = {'str': STRS, 'int': INTS, 'mix': INTS + STRS}[fam]
                 labels = ch.sample(pool, n)
         if labels and self.want_fault(ch):
             labels.insert(ch.randint(0, len(labels)), ch.choice(labels))  # duplicate -> must be rejected
-        if not u and ch.chance(0.12):
+        if not u and not op.get('num') and ch.chance(0.12):
             # the public dtype argument: the index holds (and must be unique over) the *converted* labels
             op['dtype'] = ch.choice(['int', 'float', 'str', 'object'])
             if ch.chance(0.6):
@@ -329,6 +335,9 @@ class IndexOps:
         e.extra['auto'] = bool(op.get('auto'))
         learn_index(m, snap_index(r))
         self.check_ent(e, op, full=True)
+        if op.get('num'):
+            self.stats['probe:big-int-next-to-float-construction'] += 1
+            self.ents.pop(e.h, None)  # checked as constructed; not grown or derived (see NUMS)
         return 'ok'
 
     # ------------------------------------------------------------------ growth
